@@ -493,6 +493,9 @@ def loop_of(g, node):
 
 
 def rule_C03(c):
+    # R7: positions in the batch are never narrowed below int (coefficient i must depend on i, not on i mod 256)
+    c.floor("C03.R7", 3)
+    rule_no_index_narrowing(c, "C03.R7", ["bls_batch_verify", "build_tree", "bls_batch_verify_tree"])
     c.floor("C03.R1", 4)
     c.floor("C03.R2", 4)
     c.floor("C03.R5", 4)
@@ -794,12 +797,82 @@ def _constructed_point_ctx(c, fn, pidx, depth):
     return sites > 0
 
 
+def _unknown_void_helper(c, fn):
+    """a glue function the rules do not know, returning void, that is only ever called as a statement: the CFG engine
+    analyses its body in place at every call site, so it is not judged on its own"""
+    try:
+        from cvocab import CVOCAB
+    except Exception:
+        CVOCAB = set()
+    if fn in CVOCAB or fn not in c.p.funcs:
+        return False
+    rtype = (c.p.funcs[fn].get("type", {}).get("qualType", "") or "").split("(")[0].strip()
+    if rtype != "void":
+        return False
+    body = [x for x in c.p.funcs[fn]["inner"] if x.get("kind") == "CompoundStmt"]
+    if not body or any(x.get("kind") in ("ReturnStmt", "GotoStmt", "LabelStmt") for x in walk(body[0])):
+        return False   # not analysed in place (cast.CFG.inline_plan): judged on its own
+    sites = 0
+    for caller, fd in c.p.funcs.items():
+        for e in walk(fd):
+            if e.get("kind") == "CallExpr" and callee_name(e) == fn:
+                sites += 1
+    return sites > 0
+
+
+def rule_writer_infinity(c, rule):
+    """A point's coordinates are serialised only on paths where the point was tested not to be infinity: the point at
+    infinity has no affine coordinates (its encoding is the dedicated header byte followed by zeros), so a writer that
+    converts and exports without the test emits a non-infinity encoding for the identity."""
+    n = 0
+    for fn in sorted(c.p.funcs):
+        if _unknown_void_helper(c, fn):
+            continue
+        try:
+            g = c.p.cfg(fn)
+        except cast.Unsupported:
+            continue
+        for node, call in g.calls():
+            cn = callee_name(call)
+            if cn not in ("Fp_write_bytes", "Fp2_write_bytes"):
+                continue
+            src = strip(call["inner"][2]) if len(call["inner"]) > 2 else None
+            if src is None:
+                continue
+            def has_coord(e_):
+                for x in walk(e_):
+                    if x.get("kind") == "MemberExpr" and x.get("name") in ("x", "y"):
+                        bt = x["inner"][0].get("type", {}).get("qualType", "")
+                        if any(t_ in bt.replace("const ", "").replace(" *", "").split() for t_ in ("E1", "E2")):
+                            return True
+                return False
+            isCoord = has_coord(src)
+            if not isCoord:
+                # a field element local that a dominating conversion filled from a coordinate
+                b_ = base_name(g.r(src))
+                for m2, call2 in g.calls():
+                    if callee_name(call2) in ("Fp_from_montg", "Fp2_from_montg", "Fp_copy", "Fp2_copy") and len(call2["inner"]) > 2 \
+                            and base_name(g.r(call2["inner"][1])) == b_ and has_coord(call2["inner"][2]) and g.dominates(m2, node):
+                        isCoord = True
+            if not isCoord:
+                continue
+            n += 1
+            facts = g.resolved_facts(node)
+            okk = any(re.fullmatch(r"E[12]_is_infty\(.*\) == 0", f) for f in facts)
+            c.check(okk, rule, "%s/coordinates-written-for-finite-point:%s" % (fn, g.r(call["inner"][2])), c.pos(g, node),
+                    "coordinates are exported only after the point was tested not to be infinity",
+                    "%s exports a coordinate (`%s`) on a path without an infinity test: for the identity the affine conversion yields (0,0) and an ordinary-point encoding is written instead of the infinity encoding" % (fn, g.r(call)), facts)
+    return n
+
+
 def rule_affine_casts(c, rule):
     """A glue point (E1/E2, Jacobian in general) may be reinterpreted as a BLST affine point only where the
     object is affine by construction: inside the on-curve checkers (documented affine parameter) or on a local
     just written by E?_to_affine.  Anything else silently drops the Z coordinate."""
     n = 0
     for fn in sorted(c.p.funcs):
+        if _unknown_void_helper(c, fn):
+            continue   # analysed in place at its call sites
         try:
             g = c.p.cfg(fn)
         except cast.Unsupported:
@@ -831,6 +904,8 @@ def rule_affine_casts(c, rule):
     # from its affine coordinates (and set Z=1 afterwards), are the only other place coordinates are touched
     m_ = 0
     for fn in sorted(c.p.funcs):
+        if _unknown_void_helper(c, fn):
+            continue   # analysed in place at its call sites
         try:
             g = c.p.cfg(fn)
         except cast.Unsupported:
@@ -863,6 +938,9 @@ def rule_affine_casts(c, rule):
 
 
 def rule_C04(c):
+    # R6: encodings of sums: the writers export coordinates only for points tested not to be infinity
+    c.floor("C04.R6", 2)
+    rule_writer_infinity(c, "C04.R6")
     c.floor("C04.R3", 14)
     c.floor("C04.R5", 2)
     rule_affine_casts(c, "C04.R5")
@@ -1328,6 +1406,11 @@ def rule_object_extents(c, rule, only=None):
 
 
 def rule_C05(c):
+    # R7: the serializers read coordinates of affine points only (conversion first): what is written is the encoding of the
+    # point, not of its Jacobian representation (= C04.R5)
+    c.floor("C05.R7", 2)
+    rule_affine_casts(c, "C05.R7")
+    rule_writer_infinity(c, "C05.R7")
     c.floor("C05.R6", 20)
     rule_object_extents(c, "C05.R6")
     c.floor("C05.R1", 4)
@@ -1453,7 +1536,100 @@ def norm_eq(f, w):
 
 # ------------------------------------------------------------------ C06
 
+NARROW_INT_TYPES = {"byte", "unsigned char", "uint8_t", "char", "signed char", "int8_t", "short", "unsigned short", "uint16_t", "int16_t"}
+
+
+def rule_no_index_narrowing(c, rule, fns):
+    """In the glue functions whose sizes are caller-controlled `int`s (batch length, number of groups), no value derived
+    from a loop counter / length is converted to an 8- or 16-bit integer — as an explicit cast or implicitly at a call of
+    a helper whose parameter is narrower: entries i and i+256k would silently be treated alike."""
+    n = 0
+    for fn in fns:
+        fd = c.p.funcs.get(fn)
+        if fd is None:
+            c.und(rule, "anchor:" + fn, "?", "unresolved anchor: C function %s" % fn)
+            continue
+        seen = {}
+        for e in walk(fd):
+            if e.get("kind") not in ("ImplicitCastExpr", "CStyleCastExpr") or e.get("castKind") != "IntegralCast":
+                continue
+            to = (e.get("type") or {}).get("desugaredQualType") or (e.get("type") or {}).get("qualType") or ""
+            to = re.sub(r"^const\s+", "", to)
+            if to not in NARROW_INT_TYPES:
+                continue
+            inner = [x for x in e.get("inner", []) if isinstance(x, dict)]
+            if not inner or const_eval(inner[-1], c.p.enums) is not None:
+                continue
+            frm = (strip(inner[-1]).get("type") or {}).get("qualType", "")
+            if re.sub(r"^const\s+", "", frm) in NARROW_INT_TYPES or frm in ("bool", "_Bool"):
+                continue
+            # only values that vary with a variable (a counter, a length)
+            if not any(x.get("kind") == "DeclRefExpr" and x.get("referencedDecl", {}).get("kind") in ("VarDecl", "ParmVarDecl") for x in walk(inner[-1])):
+                continue
+            n += 1
+            txt = R(c.p.enums)(inner[-1])
+            key = "%s/narrowing:%s->%s" % (fn, txt[:40], to)
+            seen[key] = seen.get(key, 0) + 1
+            if seen[key] > 1:
+                continue
+            c.viol(rule, key, "%s:%s" % (c.p.where.get(fn, "?"), e.get("_line")), "`%s` (%s) is converted to %s in %s, whose sizes are caller-controlled ints: positions that differ by a multiple of %d are treated alike" % (txt, frm, to, fn, 256 if "8" in to or "char" in to or to == "byte" else 65536))
+        if not seen:
+            c.ok(rule, fn + "/no-narrowing", c.p.pos(fd), "no counter or length is narrowed to 8/16 bits")
+
+
+def rule_paired_indexing(c, rule, fn, a_param_idx, b_param_idx):
+    """Two arrays that are consumed pairwise (points and their scalars) are indexed by the same variables: every variable
+    that positions the reads of one must position the reads of the other, except the counter of a loop that only walks one
+    of them element by element while the other is handed over as a block starting at the same offset."""
+    fd = c.p.funcs.get(fn)
+    if fd is None:
+        c.und(rule, "anchor:" + fn, "?", "unresolved anchor: C function %s" % fn)
+        return
+    params = [p_["name"] for p_ in c.p.params(fn)]
+    A, B = params[a_param_idx], params[b_param_idx]
+    rend = R(c.p.enums)
+
+    def offset_vars(name):
+        out, sites = set(), 0
+        for e in walk(fd):
+            k = e.get("kind")
+            off = None
+            if k == "BinaryOperator" and e.get("opcode") in ("+",) and strip(e["inner"][0]).get("kind") == "DeclRefExpr" and strip(e["inner"][0])["referencedDecl"].get("name") == name:
+                off = e["inner"][1]
+            elif k == "ArraySubscriptExpr" and strip(e["inner"][0]).get("kind") == "DeclRefExpr" and strip(e["inner"][0])["referencedDecl"].get("name") == name:
+                off = e["inner"][1]
+            if off is None:
+                continue
+            sites += 1
+            for x in walk(off):
+                if x.get("kind") == "DeclRefExpr" and x["referencedDecl"].get("kind") in ("VarDecl", "ParmVarDecl"):
+                    out.add(x["referencedDecl"]["name"])
+        # a bare use of the parameter (whole array handed over) positions it at offset 0: no variables
+        return out, sites
+    va, sa = offset_vars(A)
+    vb, sb = offset_vars(B)
+    # counters of loops whose body reads only one of the two arrays
+    one_sided = set()
+    for e in walk(fd):
+        if e.get("kind") != "ForStmt":
+            continue
+        names = {x["referencedDecl"]["name"] for x in walk(e) if x.get("kind") == "DeclRefExpr" and x["referencedDecl"].get("kind") == "ParmVarDecl"}
+        if (A in names) != (B in names):
+            init = e["inner"][0]
+            for d in walk(init) if isinstance(init, dict) else []:
+                if d.get("kind") == "VarDecl":
+                    one_sided.add(d["name"])
+    bad_a = sorted(v for v in va - vb if v not in one_sided)
+    bad_b = sorted(v for v in vb - va if v not in one_sided)
+    c.check(not bad_a and not bad_b, rule, "%s/paired-index:%s~%s" % (fn, A, B), c.p.pos(fd),
+            "`%s` and `%s` are positioned by the same variables %s" % (A, B, sorted(va | vb)),
+            "`%s` is positioned by %s but `%s` by %s: element k of one is combined with another element of the other (%s)" % (A, sorted(va), B, sorted(vb), ", ".join(bad_a + bad_b)))
+
+
 def rule_C06(c):
+    # R7: the multi-scalar multiplication behind the interpolation pairs point k with coefficient k
+    c.floor("C06.R7", 1)
+    rule_paired_indexing(c, "C06.R7", "E1_multi_scalar", 1, 2)
     c.floor("C06.R4", 4)
     c.floor("C06.R5", 3)
     fn = "Fr_lagrange_coeff_at_zero"
@@ -1541,7 +1717,24 @@ def rule_reader_discipline_one(c, rule, fn):
 
 # ------------------------------------------------------------------ C07.R5 (vector intake in C)
 
+def rule_C08(c):
+    # R10: a malformed verification vector is rejected by the reader whatever precedes the malformed entry (every element
+    # read VALID and subgroup-checked, element i taken from byte offset 96·i, VALID only after all elements) = C07.R5
+    c.floor("C08.R10", 3)
+    g = c.cfg("C08.R10", "G2_vector_read_bytes")
+    if g:
+        A, src, ln = [p["name"] for p in c.p.params("G2_vector_read_bytes")]
+        for n in g.nodes:
+            if g.valid_accept_facts(n) is not None:
+                facts = g.valid_accept_facts(n)
+                c.check("i >= %s" % ln in facts, "C08.R10", "G2_vector_read_bytes/all-elements", c.pos(g, n), "VALID only after all elements", "vector accepted early", facts)
+        rule_vector_loop(c, "C08.R10", "G2_vector_read_bytes/element-in-G2", "G2_vector_read_bytes/stride")
+
+
 def rule_C07(c):
+    # R10: points of the verification vector / public shares are used as affine points only after a conversion (= C04.R5)
+    c.floor("C07.R10", 2)
+    rule_affine_casts(c, "C07.R10")
     c.floor("C07.R5", 3)
     g = c.cfg("C07.R5", "G2_vector_read_bytes")
     if g:
@@ -1826,5 +2019,5 @@ def rule_C12(c):
     rule_object_extents(c, "C12.R5")
 
 
-RULES = {"C12": rule_C12, "C01": rule_C01, "C02": rule_C02, "C03": rule_C03, "C04": rule_C04, "C05": rule_C05, "C06": rule_C06,
+RULES = {"C08": rule_C08, "C12": rule_C12, "C01": rule_C01, "C02": rule_C02, "C03": rule_C03, "C04": rule_C04, "C05": rule_C05, "C06": rule_C06,
          "C07": rule_C07, "C09": rule_C09, "C17": rule_C17, "C19": rule_C19, "C20": rule_C20}
